@@ -328,6 +328,30 @@ func Check(r *vrep.Report, callsV []uni.Call, tsos []uni.TSOEvent, recs []*work.
 				}
 			}
 		}
+		// rule 2b: committing a secondary applies the primary's outcome - the commit ts of a secondary is the one the
+		// primary's commit succeeded with (a commit ts refreshed after a commit-ts-expired answer must reach the secondaries)
+		if !asyncEffective {
+			var primaryTS uint64
+			var primaryRet int64 = math.MaxInt64
+			for _, cm := range v.commits {
+				if hasKey(cm.Req.(*kvrpcpb.CommitRequest).Keys, primary) && commitOK(cm) && cm.RetSeq < primaryRet {
+					primaryRet = cm.RetSeq
+					primaryTS = cm.Req.(*kvrpcpb.CommitRequest).CommitVersion
+				}
+			}
+			if primaryTS != 0 {
+				for _, cm := range v.commits {
+					req := cm.Req.(*kvrpcpb.CommitRequest)
+					if hasKey(req.Keys, primary) || cm.Seq < primaryRet {
+						continue
+					}
+					r.Count("rule2b_evaluated", 1)
+					if req.CommitVersion != primaryTS {
+						viol("2:secondary-commit-ts-differs-from-primary", fmt.Sprintf("txn %d: Commit of secondaries %q carries commit ts %d, the primary's commit succeeded with %d", v.start, req.Keys, req.CommitVersion, primaryTS), cm)
+					}
+				}
+			}
+		}
 		// rule 3: no BatchRollback by the owner once the primary commit may have taken effect
 		for _, rb := range v.rollbacks {
 			if rb.Client != v.owner {
